@@ -158,9 +158,74 @@ static void start_cases()
    }
 }
 
+// every eol policy: a memory_input over a window of a larger array (the bytes behind the window complete a line ending)
+// against a string_input holding a copy of exactly the window's bytes
+struct E : seq< star< sor< eol, not_one< '\r', '\n' >, any > >, eof > {};
+static std::string e_log;
+template< typename R > struct eact : nothing< R > {};
+template<> struct eact< eol >
+{
+   template< typename AI > static void apply( const AI& in ) { e_log += "e[" + std::to_string( in.position().byte ) + "+" + std::to_string( in.size() ) + "]"; }
+};
+
+template< typename In >
+static std::string erun( In&& in )
+{
+   e_log.clear();
+   std::string r;
+   try {
+      r = parse< E, eact >( in ) ? "T" : "F";
+   }
+   catch( const std::exception& e ) {
+      r = "X";
+   }
+   const auto p = in.position();
+   return r + "@" + std::to_string( p.byte ) + ":" + std::to_string( p.line ) + ":" + std::to_string( p.column ) + " " + e_log;
+}
+
+template< typename Eol >
+static void eol_policy( const char* name )
+{
+   const std::string alphabet = "a\r\n";
+   std::vector< std::string > cur{ "" }, all{ "" };
+   for( int l = 0; l < 4; ++l ) {
+      std::vector< std::string > nx;
+      for( const auto& p : cur ) {
+         for( const char c : alphabet ) {
+            nx.push_back( p + c );
+         }
+      }
+      all.insert( all.end(), nx.begin(), nx.end() );
+      cur = std::move( nx );
+   }
+   for( const auto& d : all ) {
+      for( const char* tail : { "\n\r\n", "\r\n", "a" } ) {
+         ++n_cases;
+         const std::string arena = d + tail;
+         const std::string ref = erun( string_input< tracking_mode::eager, Eol >( std::string( d ), "s" ) );
+         const std::string eager = erun( memory_input< tracking_mode::eager, Eol >( arena.data(), arena.data() + d.size(), "s" ) );
+         const std::string lazy = erun( memory_input< tracking_mode::lazy, Eol >( arena.data(), arena.data() + d.size(), "s" ) );
+         for( const auto& g : { std::make_pair( "eager", eager ), std::make_pair( "lazy", lazy ) } ) {
+            // cr_crlf: eager and lazy tracking disagree on the column after CR LF (recorded under C06); compare result, byte and actions only
+            const bool crcrlf = std::string( name ) == "cr_crlf";
+            const auto cut = []( const std::string& s ) { const auto a = s.find( ':' ); const auto b = s.find( ' ' ); return s.substr( 0, a ) + s.substr( b ); };
+            if( crcrlf ? ( cut( g.second ) != cut( ref ) ) : ( g.second != ref ) ) {
+               ++n_bad;
+               std::printf( "BAD memory_input< %s, eol::%s > over a window on E data of %zu bytes followed by %zu more: '%s' instead of '%s' (string_input with a copy of the window)\n", g.first, name, d.size(), std::string( tail ).size(), g.second.c_str(), ref.c_str() );
+            }
+         }
+      }
+   }
+}
+
 int main()
 {
    start_cases();
+   eol_policy< eol::lf >( "lf" );
+   eol_policy< eol::cr >( "cr" );
+   eol_policy< eol::crlf >( "crlf" );
+   eol_policy< eol::lf_crlf >( "lf_crlf" );
+   eol_policy< eol::cr_crlf >( "cr_crlf" );
    const std::string path = "/tmp/c07_nul_" + std::to_string( getpid() ) + ".bin";
    const std::string alphabet( "a\0b;", 4 );
    std::vector< std::string > cur{ "" }, all{ "" };
